@@ -8,7 +8,7 @@ EXTENDS HpoLinkage, TLC, Json
 
 CONSTANTS Vals,      \* distance values of the free matrices (arithmetic modes); 0 stands for Inf
           Overlap    \* union mode: FALSE = singleton inputs with distinct weights, TRUE = every assignment of
-                     \* non-empty subsets of three weighted items (overlapping, nested, equal inputs)
+                     \* subsets of three weighted items (overlapping, nested, equal, empty inputs)
 
 VARIABLES d0, c0, w0
 
@@ -21,7 +21,7 @@ W3 == [i \in Items3 |-> CASE i = 0 -> 1 [] i = 1 -> 2 [] OTHER -> 4]      \* eve
 Init == /\ IF Mode = "union"
              THEN IF Overlap
                     THEN /\ w0 = W3
-                         /\ c0 \in [0..(N - 1) -> (SUBSET Items3) \ {{}}]
+                         /\ c0 \in [0..(N - 1) -> SUBSET Items3]          \* the empty set is a set, too
                     ELSE /\ w0 \in {w \in Weights : \A i, j \in 0..(N - 1) : i < j => w[i] # w[j]}
                          /\ c0 = Singletons
              ELSE w0 = [i \in 0..(N - 1) |-> 0] /\ c0 = Singletons
